@@ -372,6 +372,18 @@ contains
        sz = size(ip); sm = 0; if (sz > 0) sm = sum(ip)
        call res_arr(sz, sm); nullify(ip)
 #endif
+#ifndef SIMC
+    case ("arr_pp")
+       call sim_phase(1); call arr_fill_ptr(ip, int(a, C_INT)); call sim_phase(0)
+       sz = size(ip); sm = 0; if (sz > 0) sm = sum(ip)
+       call res_arr(sz, sm); nullify(ip)
+#endif
+#ifndef SIMC
+    case ("arr_gref")
+       call sim_phase(1); call arr_grab_ref(ip, int(a, C_INT)); call sim_phase(0)
+       sz = size(ip); sm = 0; if (sz > 0) sm = sum(ip)
+       call res_arr(sz, sm); nullify(ip)
+#endif
     case ("arr_sum")
        allocate(iv(a)); do i = 1, a; iv(i) = 3 * i; end do
        call sim_phase(1); r = arr_sum(iv); call sim_phase(0); call res_int(int(r)); deallocate(iv)
